@@ -371,6 +371,10 @@ def _inplace(osy, rng, res, e, ents, groups, views, steps, label, n):
     kind = kinds[int(rng.integers(0, len(kinds)))]
     xunit = x.unit
     sx, dx = scale_dims(xunit)
+    if opn in ("imul", "idiv") and not (1e-75 < sx < 1e75):
+        # repeated x *= x squares the unit every time (megayear**32 ...): its CGS factor would leave the range of a
+        # double, where neither pint nor the oracle can express the quantity - keep the history inside it
+        opn = "iadd" if opn == "imul" else "isub"
     fam = [f for f, us in gen.FAMILIES.items() if dims_close(scale_dims(osy.units(us[0]))[1], dx)]
     rel = ["same", "compatible", "incompatible"][int(rng.integers(0, 3))]
     if rel == "incompatible" or not fam:
